@@ -28,6 +28,7 @@ pub fn run_scenario(sc: &Value) -> Value {
         "surface" => surface::run(sc),
         "cov" => cov::run(sc),
         "canvas" => canvas::run(sc),
+        "routes" => canvas::run_routes(sc),
         "flatten" | "contains" | "builder" | "arc" => pathfam::run(sc),
         "views" => views::run(sc),
         "shade" => shade::run(sc),
